@@ -126,8 +126,8 @@ def concretise(case, rng):
     elif t == "Dur":
         mk("dur", [{"t": "dur", "i": str(v)} for v in DURS[cls]], "Dur", "dur", "Dur", "Durs", "dur")
     elif t in ("Hex", "RawCBOR"):
-        v = b"" if cls == "empty" else rng.choice([b"\x00\x01\xfe\xff", b"\x83\x01\x02\x03"])
-        mk(t.lower(), [{"t": "[]byte", "s": b64(v)}], t, "[]byte", t, None, None)
+        vs = [b""] if cls == "empty" else [b"\x00\x01\xfe\xff", b"\x83\x01\x02\x03", b"\xfb\x40\x09\x21\xfb\x54\x44\x2d\x18", b"\x9f\x01\xff", b"\xff\xff\xff", b"\xfb\xef\xbe\x01"]
+        mk(t.lower(), [{"t": "[]byte", "s": b64(v)} for v in vs], t, "[]byte", t, None, None)
     elif t == "IPAddr":
         ip = {"v4": [127, 0, 0, 1], "v6": list(range(16)), "v4in6": [0] * 10 + [255, 255, 10, 0, 0, 1]}[cls]
         mk("ip", [{"t": "ip", "ip": ip}], "IPAddr", "ip", "IPAddr", None, None)
